@@ -6,7 +6,9 @@ import hashlib
 import os
 import posixpath
 
-NAMES = ["a", "b", "foo", "bar.txt", "x y", "ünï", "c.py", "sub", "deep", "lib", ".hidden", "z~", "m.pyc", "k.link", "[q]", "é.c"]
+# ("é.c" precomposed and "e\u0301.c" decomposed are two different names on disk and in a recording)
+NAMES = ["a", "b", "foo", "bar.txt", "x y", "ünï", "c.py", "sub", "deep", "lib", ".hidden", "z~", "m.pyc", "k.link", "[q]", "é.c",
+         "e\u0301.c", "u\u0308ni\u0308"]
 CONTENTS = [b"", b"hello\n", b"a\r\nb\r\n", b"\x00\x01\xff binary", b"x" * 3000, b"line\rmac\r", b"same\n", b"same\n"]
 
 
